@@ -152,7 +152,9 @@ func VH_C14_ReadOnly() {
 		vh.Cover("C14.served")
 	}
 	gb := vhGetBlob(w2.s, "b", w.dOther)
-	if layout != 4 && !mutated {
+	// (the blob in b is unreferenced: the memory store's own collection - no grace period
+	// here - may drop it from memory once b was opened; the directory keeps it)
+	if layout != 4 && !mutated && conf.Storage.StoreType == config.StoreDir {
 		vh.Assert(gb.Status() == 200, "C14.content-not-served")
 	}
 	// the empty repository is opened by a read as well
